@@ -610,13 +610,11 @@ impl IoLoop {
             self.poll
                 .poll(&mut events, poll_timeout)
                 .context(FailedToPollSnafu)?;
+            let socket_was_readable = events
+                .iter()
+                .any(|event| event.token() == STREAM && event.readiness().is_readable());
             if let Some(timeout) = &self.connection_timeout {
-                if events
-                    .iter()
-                    .any(|event| event.token() == STREAM && event.readiness().is_readable())
-                {
-                    socket_silent_since = Instant::now();
-                } else if socket_silent_since.elapsed() > *timeout {
+                if !socket_was_readable && socket_silent_since.elapsed() > *timeout {
                     return ConnectionTimeoutSnafu.fail();
                 }
             }
@@ -641,6 +639,12 @@ impl IoLoop {
 
             if is_done(self, state) {
                 return Ok(());
+            }
+
+            // The server's silence starts when we have finished reading what it sent, not
+            // when we were woken up to read it (more may have arrived while we were reading).
+            if socket_was_readable {
+                socket_silent_since = Instant::now();
             }
 
             // Avoid out-of-memory from very fast publishers. If we have more than
